@@ -15,6 +15,9 @@ static struct cat_descriptor h_desc;
 #ifndef MAX_CAP
 #define MAX_CAP 4096
 #endif
+#ifndef MAX_DS
+#define MAX_DS 64
+#endif
 
 /* command half of symbolic capacity cap (6..MAX_CAP), separate or shared layout */
 static size_t h_setup_buffers(void)
@@ -46,7 +49,7 @@ static struct cat_variable h_var;
 static void h_setup_var(cat_var_type type)
 {
         size_t ds = nondet_size();
-        __CPROVER_assume(ds >= 1 && ds <= 64);
+        __CPROVER_assume(ds >= 1 && ds <= MAX_DS);
         h_var.type = type;
         h_var.data = malloc(ds);
         __CPROVER_assume(h_var.data != NULL);
@@ -57,5 +60,13 @@ static void h_setup_var(cat_var_type type)
         h_obj.var = &h_var;
         g_j = nondet_size();
         if (g_j < ds) g_oldbyte = ((uint8_t *)h_var.data)[g_j];
+}
+unsigned int nondet_uint(void);
+/* variable attached to the machine chosen by fsm */
+static void h_setup_var_f(cat_var_type type, cat_fsm_type fsm)
+{
+        h_setup_var(type);
+        h_obj.var = NULL;
+        if (fsm == CAT_FSM_TYPE_ATCMD) h_obj.var = &h_var; else h_obj.unsolicited_fsm.var = &h_var;
 }
 #endif
